@@ -22,6 +22,10 @@ class Env:
         self.pool = pool or []
         self.draws = draws or {}
         self.reads: set[str] = set()
+        self.reads_var: set[str] = set()   # read through a Variable node
+        self.reads_lin: set[str] = set()   # read through a bioLinearUtility term
+        self.reads_maybe: set[str] = set()  # right operand of and/or when the left one decides
+        self.maybe_missing = False
         self.missing = missing
         self.read_missing = False
 
@@ -36,6 +40,7 @@ def ev(n, e: Env) -> float:
         return float(n[1])
     if k == 'var':
         e.reads.add(n[1])
+        e.reads_var.add(n[1])
         v = float(e.row[n[1]])
         if e.missing is not None and v == e.missing:
             e.read_missing = True
@@ -99,11 +104,20 @@ def ev(n, e: Env) -> float:
         return min(ev(n[1], e), ev(n[2], e))
     if k == 'max':
         return max(ev(n[1], e), ev(n[2], e))
-    if k == 'and':
-        a, b = ev(n[1], e), ev(n[2], e)
-        return 1.0 if (truth(a) and truth(b)) else 0.0
-    if k == 'or':
-        a, b = ev(n[1], e), ev(n[2], e)
+    if k in ('and', 'or'):
+        a = ev(n[1], e)
+        short = (not truth(a)) if k == 'and' else truth(a)
+        if short:
+            # whether the right operand is read when the left one decides is not specified: its
+            # reads are recorded as "maybe"
+            sub = Env(e.row, e.betas, e.pool, e.draws, e.missing)
+            b = ev(n[2], sub)
+            e.reads_maybe |= sub.reads | sub.reads_maybe
+            e.maybe_missing = e.maybe_missing or sub.read_missing or sub.maybe_missing
+        else:
+            b = ev(n[2], e)
+        if k == 'and':
+            return 1.0 if (truth(a) and truth(b)) else 0.0
         return 1.0 if (truth(a) or truth(b)) else 0.0
     if k in ('==', '!=', '<', '<=', '>', '>='):
         a, b = ev(n[1], e), ev(n[2], e)
@@ -131,6 +145,7 @@ def ev(n, e: Env) -> float:
         s = 0.0
         for b, v in n[1]:
             e.reads.add(v)
+            e.reads_lin.add(v)
             x = float(e.row[v])
             if e.missing is not None and x == e.missing:
                 e.read_missing = True
